@@ -410,6 +410,9 @@ fn run(ctx: &mut Ctx) {
     if ctx.shard == 5 % ctx.nshards {
         undecodable_names_slice(ctx);
     }
+    if ctx.shard == 4 % ctx.nshards {
+        low_descriptor_slice(ctx);
+    }
     fault_slice(ctx);
 }
 
@@ -757,7 +760,33 @@ fn undecodable_names_slice(ctx: &mut Ctx) {
     let _ = crate::sandbox::force_remove(&base);
 }
 
+/// 150 directories with 64 file descriptors (see props/lowfd.rs): every entry is visited.
+fn low_descriptor_slice(ctx: &mut Ctx) {
+    use crate::props::lowfd;
+    let _ = lowfd::build(ctx);
+    let cases: Vec<(Vec<&str>, usize)> = vec![(vec!["lf"], 451), (vec!["-L", "lf"], 451), (vec!["lf", "-depth"], 451), (vec!["-H", "lf", "-mindepth", "2"], 300), (vec!["lf", "-follow", "-maxdepth", "1"], 151)];
+    for (args, want) in cases {
+        let o = lowfd::find(ctx, &args, 64, vec![]);
+        ctx.rep.evaluations += 1;
+        ctx.rep.nontrivial += 1;
+        ctx.rep.count("low_descriptor_limit_cases", 1);
+        let got = lowfd::lines(&o.out).len();
+        if o.died() || o.code != Some(0) || got != want {
+            ctx.rep.violation(
+                "C02 over 150 directories with 64 file descriptors: the later entries are not handled like the first",
+                format!("find {:?} under RLIMIT_NOFILE=64: {got} lines, expected {want}; status {:?}; stderr {:?}", args, o.code, String::from_utf8_lossy(&o.err).lines().take(2).collect::<Vec<_>>()),
+                json!({"prop":"C02","low_descriptor":true}),
+            );
+        }
+    }
+    lowfd::remove(ctx);
+}
+
 fn replay(case: &Value, ctx: &mut Ctx) -> Option<String> {
+    if case["low_descriptor"] == true {
+        low_descriptor_slice(ctx);
+        return ctx.rep.violations.keys().next().cloned();
+    }
     if case["undecodable"] == true {
         undecodable_names_slice(ctx);
         return ctx.rep.violations.keys().next().cloned();
